@@ -8,7 +8,7 @@ open Gnet Gnet.Engine
 (A:loop:seq), registrations on the loops (E:loop:seq, which must follow the FIFO order of the hand-overs),
 closes (C:loop:seq) and loops leaving Polling (X:loop); returns the number of descriptors the model leaves
 unclosed once everything has stopped -/
-def hoReplay (nloops : Nat) (evs : List String) : Except String Nat := do
+def hoReplay (nloops : Nat) (evs : List String) : Except String (Nat × Nat) := do
   let s ← evs.foldlM (init := Handover.init nloops) fun s e =>
     match e.splitOn ":" with
     | ["A", l, k] =>
@@ -17,6 +17,13 @@ def hoReplay (nloops : Nat) (evs : List String) : Except String Nat := do
         if k ≠ s.nextFd then .error s!"hand-over {e}: connections are numbered in hand-over order, expected {s.nextFd}"
         else if l ≥ s.loops.length then .error s!"hand-over {e}: no such loop"
         else .ok (Handover.step s (.accept l))
+      | _, _ => .error s!"unparsable hand-over event {e}"
+    | ["N", l, k] =>     -- a connection created by a Register / Enroll call
+      match l.toNat?, k.toNat? with
+      | some l, some k =>
+        if k ≠ s.nextFd then .error s!"enrolment {e}: connections are numbered in creation order, expected {s.nextFd}"
+        else if l ≥ s.loops.length then .error s!"enrolment {e}: no such loop"
+        else .ok (Handover.step s (.enroll l))
       | _, _ => .error s!"unparsable hand-over event {e}"
     | ["E", l, k] =>
       match l.toNat?, k.toNat? with
@@ -42,9 +49,12 @@ def hoReplay (nloops : Nat) (evs : List String) : Except String Nat := do
         | none => .error s!"{e}: no such loop"
       | none => .error s!"unparsable hand-over event {e}"
     | _ => .error s!"unparsable hand-over event {e}"
-  let s := Handover.run s [.requestStop, .postSentinels, .acceptorExit]
+  let s := Handover.run s [.requestStop, .postSentinels, .acceptorExit, .setFlag]
   if !Handover.Final s then .error "Run returned although a loop never left Polling (no closeConns seen for it)"
-  else .ok (Handover.unclosed s).length
+  else
+    -- an unanswered Register(address) call also keeps the socket it dialled itself: one more open socket per call
+    let u := (Handover.unanswered s).length
+    .ok ((Handover.unclosed s).length + u, u)
 
 def parseTok (t : String) : Option Tok :=
   match t.splitOn ":" with
@@ -88,9 +98,9 @@ def judge (source : String) (nloops : Nat) (multi : Bool) (rest : List String) :
               | some h =>
                 -- " ho leaked=N ev ev ..": the model recomputes N from the events
                 match (h.splitOn " ").filter (· ≠ "") with
-                | "ho" :: _leaked :: evs =>
+                | "ho" :: _leaked :: _unanswered :: evs =>
                   match hoReplay nloops evs with
-                  | .ok n => some ((), s!"{head} | {body} | ho leaked={n}" ++ (if evs.isEmpty then "" else " " ++ " ".intercalate evs))
+                  | .ok (n, u) => some ((), s!"{head} | {body} | ho leaked={n} unanswered={u}" ++ (if evs.isEmpty then "" else " " ++ " ".intercalate evs))
                   | .error e => some ((), "MISMATCH: hand-over: " ++ e)
                 | _ => some ((), "MISMATCH: malformed hand-over record")
           | .error e => some ((), "MISMATCH: " ++ e)
